@@ -313,7 +313,8 @@ class Contract:
                 try:
                     opcode = bytecode[pc]
                     if type(opcode) is not int:
-                        raise NotConcreteError(f"symbolic opcode at pc={pc}")
+                        # a concrete byte inside a symbolic chunk comes back as a z3 numeral
+                        opcode = int_of(opcode, f"symbolic opcode at pc={pc}")
 
                     if opcode == OP_JUMPDEST:
                         jumpdests.add(pc)
